@@ -96,6 +96,18 @@ def make_case(ctx, rng, route, norb):
                     else:
                         z = small() + 1j * small()
                         h1[s_ * norb + i, s_ * norb + j], h1[s_ * norb + j, s_ * norb + i] = z, numpy.conj(z)
+        if rng.random() < 0.3:
+            # integer-valued symmetric blocks handed over as an integer array
+            hi = numpy.zeros((dim, dim), dtype=numpy.int64)
+            for s_ in range(2):
+                for i in range(norb):
+                    for j in range(i, norb):
+                        v = rng.randint(-2, 2)
+                        hi[s_ * norb + i, s_ * norb + j] = hi[s_ * norb + j, s_ * norb + i] = v
+            hi[0, 1 % norb] = hi[1 % norb, 0] = 1
+            hi[norb, norb + 1 % norb] = hi[norb + 1 % norb, norb] = 2
+            ham = fqe.get_sso_hamiltonian((hi,), e_0=e0)
+            return ham, U.spinorb_terms([hi.astype(numpy.complex128)], norb), e0, rng.choice(["single", "multi"]), {"integer_dtype": True}
         ham = fqe.get_sso_hamiltonian((h1,), e_0=e0)
         return ham, U.spinorb_terms([h1], norb), e0, rng.choice(["single", "multi"])
     if route == "diagcoulomb":
